@@ -215,6 +215,8 @@ def corr_w(ctx: Ctx, drv):
 
 def run(ctx: Ctx):
     leanproj.check_theorems(ctx, MODULE, THEOREMS)
+    from .registry import THEOREMS_C02B
+    leanproj.check_theorems(ctx, "PyseqmVerif.Properties.C02b", THEOREMS_C02B)
     drv = leanproj.Driver()
     try:
         try:
